@@ -31,11 +31,18 @@ Z = [0, 1]
 class SetCash(core.Algo):
     """temp['cash'] = c  (the optional cash fraction Rebalance honours)"""
 
-    def __init__(self, c):
+    def __init__(self, c, start=0):
         super().__init__()
         self.c = c
+        self.start = start  # only from this row of the data on
 
     def __call__(self, target):
+        if self.start:
+            try:
+                if int(target.data.index.get_loc(target.now)) < self.start:
+                    return True
+            except Exception:  # noqa: BLE001
+                return True
         target.temp["cash"] = self.c
         return True
 
@@ -58,7 +65,10 @@ def frame(prog, table, with_cols=None):
     """table: {col: [values]}; an optional "__idx__": [data row numbers] makes
     the frame sparser than the calendar (only those dates are present)."""
     idx = dates_of(prog)
-    cols = with_cols or [c for c in table.keys() if c != "__idx__"]
+    lead = int(table.get("__lead__", 0))
+    if lead:  # history published before the first date of the price data
+        idx = pd.DatetimeIndex([idx[0] - pd.DateOffset(days=k) for k in range(lead, 0, -1)]).append(idx)
+    cols = with_cols or [c for c in table.keys() if c not in ("__idx__", "__lead__")]
     df = pd.DataFrame({c: [float("nan") if v is None else (v if isinstance(v, bool) else float(v)) for v in table[c]] for c in cols}, index=idx)
     if "__idx__" in table:
         df = df.iloc[list(table["__idx__"])]
@@ -80,7 +90,7 @@ def make_algo(name, params, prog, spylog=None):
         return None if v is None else pd.DateOffset(days=v)
 
     if name == "SetCash":
-        return SetCash(p["c"])
+        return SetCash(p["c"], p.get("start", 0))
     if name == "Spy":
         return Spy(spylog if spylog is not None else [], p.get("ret", True), p.get("tag", "spy"))
     if name in ("RunDaily", "RunWeekly", "RunMonthly", "RunQuarterly", "RunYearly"):
@@ -554,6 +564,8 @@ def run_program(prog, record=True, tid0=0, lazy=True, seed=None, impl=False):
                 ex[k] = pd.Series([float("nan") if x is None else float(x) for x in v["values"]], index=dates_of(prog))
             elif isinstance(v, dict) and v.get("__raw__") is not None:
                 ex[k] = v["__raw__"]
+            elif isinstance(v, dict) and v.get("__group__"):
+                ex[k] = {m: frame(prog, tab) for m, tab in v["frames"].items()}
             elif isinstance(v, dict):
                 ex[k] = frame(prog, v)
             else:
